@@ -42,7 +42,7 @@ MUTANTS = [
         }''', ['C01', 'C08']),
  # ---- C02
  m('new_add_lo_db_only', A, 'Self { hi: s, lo: da + db }', 'Self { hi: s, lo: db }', ['C02', 'C03']),
- m('new_sub_sign_db', A, 'Self { hi: s, lo: da - db }', 'Self { hi: s, lo: da + db }', ['C02']),
+ m('new_sub_sign_db', A, 'let lo = da - db;', 'let lo = da + db;', ['C02']),
  m('new_mul_no_fma', A, 'lo: fma(a, b, -p),', 'lo: a * b - p,', ['C02', 'C04']),
  m('new_div_drop_pl', A, '''        let dh = a - ph;
         let d = dh - pl;
@@ -342,7 +342,7 @@ MUTANTS = [
  m('sinh_plus', HY, 'self.exp() / 2.0 - (-self).exp() / 2.0', 'self.exp() / 2.0 - (-self).exp() / 2.0 * (1.0 + 1e-28)', ['C18']),
  m('atanh_without_half', HY, '((1.0 + self) / (1.0 - self)).ln() / 2.0', '((1.0 + self) / (1.0 - self)).ln() / 2.0000000000000004', ['C18']),
  m('acosh_plus_one', HY, '(self + (self * self - 1.0).sqrt()).ln()', '(self + (self * self - 1.0).sqrt()).abs().ln()', ['C18'], desc='abs() is a no-op in the domain; acosh(x<1) already NaN via sqrt: expected survivor'),
- m('acosh_domain_open', HY, '(self + (self * self - 1.0).sqrt()).ln()', '(self + (self * self - 1.0).abs().sqrt()).ln()', ['C18'], desc='acosh(x<1) becomes a valid number'),
+ m('acosh_domain_open', HY, '(self + (self * self - 1.0).sqrt()).ln()', '(self + (self * self - 1.0).abs().sqrt()).ln()', ['C18'], desc='was: acosh(x<1) becomes a valid number; since F13 (explicit `self < 1.0` test in front) an equivalent mutant: expected survivor'),
  # ---- C19
  m('rem_tt_uses_round', A, '''    fn Rem::rem<'a, 'b>(self: &'a TwoFloat, rhs: &'b TwoFloat) -> TwoFloat {
         let quotient = (self / rhs).trunc();''', '''    fn Rem::rem<'a, 'b>(self: &'a TwoFloat, rhs: &'b TwoFloat) -> TwoFloat {
